@@ -269,10 +269,9 @@ impl CaseInput for ReqCase {
         }
         macro_rules! note {
             ($res:expr) => {{
-                if let Err(RequestTokenError::Other(m)) = &$res {
-                    if m.starts_with("failed to prepare request") {
-                        built_err = true;
-                    }
+                // a request that cannot be built surfaces as the Other variant (the message TEXT is not part of any property)
+                if let Err(RequestTokenError::Other(_)) = &$res {
+                    built_err = true;
                 }
             }};
         }
